@@ -31,10 +31,12 @@ MANIFEST = {
     'text': 'Every Latin-1 character, ~200 BMP boundary characters and 20 '
             'astral characters singly, and all pairs over a 12-character '
             'subset, encoded in utf-8 / latin-1 / cp1252 / utf-16 where '
-            'possible, are inserted as bytes through 14 contexts (top '
+            'possible, are inserted as bytes through 36 contexts (top '
             'level, entity, html_quote full path, in body with 1 and 2 '
             'elements, if, with, let, try with else, try with finally, try '
-            'handler, nested in+if, sub-template) into a template created '
+            'handler, nested in+if, sub-template, adjacent all-bytes pieces, '
+            'bytes next to text values, SSI and EPFS syntax, elif / else / '
+            'in-else branches, raise message, tree body) into a template created '
             'with that encoding; the result must be a str equal to the '
             'rendering with the text itself.  A table of ~45 values of all '
             'built-in types, classes, exceptions with 0..2 arguments and '
@@ -72,6 +74,28 @@ CONTEXTS = {
     'nested': 'a<dtml-in two><dtml-if t><dtml-var x></dtml-if></dtml-in>b',
     'sub': 'a<dtml-var sub>b',
     'unless': 'a<dtml-unless f><dtml-var x></dtml-unless>b',
+    # pieces that are all bytes / bytes next to text values, no literal
+    # text between them
+    'adjacent': 'a<dtml-var x><dtml-var x>b',
+    'adjacent-mixed': 'a<dtml-var s><dtml-var x><dtml-var s>b',
+    'items-only': 'a<dtml-in xs><dtml-var sequence-item></dtml-in>b',
+    'items-only-bare': '<dtml-in xs><dtml-var sequence-item></dtml-in>',
+    'if-only': 'a<dtml-if t><dtml-var x><dtml-var x></dtml-if>b',
+    'try-both': 'a<dtml-try><dtml-var x><dtml-except>h<dtml-else>'
+                '<dtml-var x></dtml-try>b',
+    'return-piece': 'a<dtml-var subx>b',
+    'ssi': 'a<!--#var x-->b<!--#var x html_quote-->c',
+    'epfs': 'EPFS:a%(x)sb%(x html_quote)sc',
+    'epfs-in': 'EPFS:a%(in two)[%(x)s,%(in)]b',
+    'elif': 'a<dtml-if f>n<dtml-elif t><dtml-var x><dtml-else>e</dtml-if>b',
+    'else': 'a<dtml-if f>n<dtml-else><dtml-var x></dtml-if>b',
+    'in-else': 'a<dtml-in none><dtml-else><dtml-var x></dtml-in>b',
+    'in-batch': 'a<dtml-in two size=1><dtml-var x></dtml-in>b',
+    'raise-msg': 'a<dtml-try><dtml-raise KeyError><dtml-var x></dtml-raise>'
+                 '<dtml-except><dtml-var error_value></dtml-try>b',
+    'comment-near': 'a<dtml-comment>c</dtml-comment><dtml-var x>b',
+    'tree': 'a<dtml-tree root><dtml-var x></dtml-tree>b',
+    'tree-text': 'a<dtml-tree root>[<dtml-var x>]</dtml-tree>b',
 }
 QUOTING = ('entity', 'hq-full', 'fmt-hq')
 
@@ -120,12 +144,34 @@ def template(ctx, enc):
     t = _t.get((ctx, enc))
     if t is None:
         from DocumentTemplate import HTML
-        t = _t[(ctx, enc)] = HTML(CONTEXTS[ctx], encoding=enc)
+        from DocumentTemplate import String
+        src = CONTEXTS[ctx]
+        if src.startswith('EPFS:'):
+            t = String(src[5:], encoding=enc)
+        else:
+            t = HTML(src, encoding=enc)
+        _t[(ctx, enc)] = t
     return t
 
 
 class O:
     pass
+
+
+class TNode:
+    def __init__(self, kids):
+        self.kids = kids
+
+    def tpValues(self):
+        return self.kids
+
+    def tpId(self):
+        return 'n'
+
+
+class Resp:
+    def setCookie(self, *a, **kw):
+        pass
 
 
 def boom():
@@ -136,8 +182,15 @@ def namespace(x, enc):
     from DocumentTemplate import HTML
     o = O()
     o.oa = 1
+    import TreeDisplay  # noqa: F401
     return {'x': x, 'one': [1], 'two': [1, 2], 't': 1, 'f': 0, 'o': o,
-            'boom': boom, 'sub': HTML('[<dtml-var x>]', encoding=enc)}
+            'boom': boom, 'sub': HTML('[<dtml-var x>]', encoding=enc),
+            's': 'text-\xe9' if enc != 'cp1252' else 'text-e',
+            'xs': [x, x, x], 'none': [],
+            'subx': HTML('<dtml-var x>', encoding=enc),
+            'root': TNode([TNode([TNode([])]), TNode([])]),
+            'expand_all': 1, 'URL': 'http://h/',
+            'RESPONSE': Resp()}
 
 
 def render(ctx, enc, x):
